@@ -180,28 +180,38 @@ Section Tokens.
          (i_exp c) (i_iat c) (i_auth_time c) (i_nonce c) (i_acr c) (i_amr c)
          (i_at_hash c) (i_c_hash c) (ui_name ui) (ui_email ui) (ui_verified ui) (i_extra c).
 
-  (* CreateIDToken.  [access] is the access token of the same response ("" = none) *)
-  Definition mk_id_token (issuer : string) (f : flow) (cl : client) (k : sigkey) (u : option user)
+  (* CreateIDToken.  [access] is the access token of the same response ("" = none).
+     id_base: NewIDTokenClaims plus the two hashes *)
+  Definition id_base (issuer : string) (f : flow) (cl : client) (k : sigkey)
              (rq : request) (access : string) (now : Z) : idclaims :=
-    let base :=
-      mkID issuer (rq_sub rq) (append_client (cl_id cl) (rq_aud rq)) (cl_id cl) (cl_id cl)
-           (sec now + cl_skew cl + cl_id_life cl)%Z
-           (sec now - cl_skew cl)%Z
-           (if is_exchange f then (sec now - cl_skew cl)%Z
-            else shifted_auth_time (rq_auth_time rq) (cl_skew cl))
-           (if is_auth_request f then rq_nonce rq else "")
-           (if is_auth_request f then rq_acr rq else "")
-           (if is_exchange f then [] else rq_amr rq)
-           (if access =s "" then "" else claim_hash (sk_alg k) access)
-           (if flow_code f =s "" then "" else claim_hash (sk_alg k) (flow_code f))
-           "" "" false [] in
+    mkID issuer (rq_sub rq) (append_client (cl_id cl) (rq_aud rq)) (cl_id cl) (cl_id cl)
+         (sec now + cl_skew cl + cl_id_life cl)%Z
+         (sec now - cl_skew cl)%Z
+         (if is_exchange f then (sec now - cl_skew cl)%Z
+          else shifted_auth_time (rq_auth_time rq) (cl_skew cl))
+         (if is_auth_request f then rq_nonce rq else "")
+         (if is_auth_request f then rq_acr rq else "")
+         (if is_exchange f then [] else rq_amr rq)
+         (if access =s "" then "" else claim_hash (sk_alg k) access)
+         (if flow_code f =s "" then "" else claim_hash (sk_alg k) (flow_code f))
+         "" "" false [].
+
+  (* the scopes the storage is asked to turn into user claims; None = not asked.
+     Token exchange: the storage sees the request itself *)
+  Definition id_userinfo_scopes (f : flow) (cl : client) (rq : request) (access : string)
+    : option (list string) :=
     let scopes0 := restrict (cl_drop_id cl) (rq_scopes rq) in
     let scopes := if negb (access =s "") && negb (cl_assert cl) then remove_userinfo scopes0 else scopes0 in
-    if is_exchange f then set_userinfo base (userinfo u (rq_sub rq) (rq_scopes rq))
-    else match scopes with
-         | [] => base
-         | _ => set_userinfo base (userinfo u (rq_sub rq) scopes)
-         end.
+    if is_exchange f then Some (rq_scopes rq)
+    else match scopes with [] => None | _ => Some scopes end.
+
+  Definition mk_id_token (issuer : string) (f : flow) (cl : client) (k : sigkey) (u : option user)
+             (rq : request) (access : string) (now : Z) : idclaims :=
+    let base := id_base issuer f cl k rq access now in
+    match id_userinfo_scopes f cl rq access with
+    | None => base
+    | Some scopes => set_userinfo base (userinfo u (rq_sub rq) scopes)
+    end.
 
   (* oidc.NewAccessTokenClaims + CreateJWT *)
   Definition mk_access_token_claims (issuer : string) (f : flow) (cl : client)
